@@ -7,9 +7,11 @@ def hx(b):
     return b.hex() if b else "-"
 
 METHODS = [b"OPTIONS", b"GET", b"HEAD", b"POST", b"PUT", b"DELETE", b"TRACE", b"CONNECT"]
-NEAR_METHODS = [b"get", b"Get", b"GE", b"GETX", b"", b"PATCH", b"POST ", b"\tGET", b"OPTION", b"CONNECTS"]
+NEAR_METHODS = [b"get", b"Get", b"GE", b"GETX", b"", b"PATCH", b"POST ", b"\tGET", b"OPTION", b"CONNECTS",
+                b"GET\x00", b"GET\x00POST", b"POST\x00\x00", b"\x00GET", b"PU\x00T", b"HEAD\x00x", b"DELETE\x00"]
 VERSIONS = [b"HTTP/1.0", b"HTTP/1.1"]
-NEAR_VERSIONS = [b"HTTP/1.2", b"HTTP/0.9", b"HTTP/2.0", b"http/1.1", b"HTTP/1.1 ", b"HTTP/1.", b"", b"HTTP/1.10", b"HTTP/1.1\r"]
+NEAR_VERSIONS = [b"HTTP/1.2", b"HTTP/0.9", b"HTTP/2.0", b"http/1.1", b"HTTP/1.1 ", b"HTTP/1.", b"", b"HTTP/1.10", b"HTTP/1.1\r",
+                 b"HTTP/1.1\x00", b"HTTP/1.0\x00x", b"HTTP/1.\x001"]
 SEGS = [b"a", b"index.html", b"%20", b"%41", b"%2e%2e", b"%2F", b"%25", b"x y".replace(b" ", b"%20"), b"\xc3\xa9", b"%C3%A9",
         b"..", b".", b"", b"~user", b"a-b_c.d", b"%7e", b"%0d%0a", b"+", b"a;b", b"a=b", b"@", b":"]
 BAD_TARGETS = [b"http://[::1", b"/%zz", b"//[", b"/a b", b"\x00", b"/\xff\xfe", b"http://a:b/", b"/%", b"/%4", b"[", b"/a\x7f", b" "]
@@ -218,6 +220,16 @@ def gen_C02(rng, count, tier):
             evs.append(pick(rng, ["readall", "read:50 avail readall", "avail readall"]))
             yield ("sock", " ".join([rd, "new"] + evs))
             continue
+        if rng.random() < 0.04:
+            # a declared length around and beyond the width of an int; only the beginning of the body is sent
+            n = pick(rng, [2147483647, 2147483648, 3221225472, 4294967295, 4294967296, 4294967301, 1 << 40])
+            sent = bytes((j * 13 + i) % 249 for j in range(pick(rng, [1, 5, 6, 700, 6000])))
+            head = valid_head(rng, cl=str(n).encode(), plain=True)
+            stream = head + b"\r\n\r\n" + sent
+            h = len(head)
+            evs = ["feed:" + hx(x) for x in cuts(rng, stream, marks=(h, h + 2, h + 4, h + 9))]
+            yield ("sock", " ".join(x for x in [reader(rng), "new"] + evs + [pick(rng, ["readall", "avail readall", "read:3 readall"])] if x))
+            continue
         n = pick(rng, [0, 1, 2, 3, 4, 5, 8, 13, 40]) if rng.random() < 0.93 else pick(rng, big)
         body = bytes(rng.randrange(256) for _ in range(n)) if n < 100 else bytes((j * 7 + i) % 251 for j in range(n))
         if n >= 4 and rng.random() < 0.3:
@@ -236,6 +248,10 @@ def gen_C02(rng, count, tier):
             pos = rng.randrange(len(evs) + 1)
             evs.insert(pos, pick(rng, ["readall", "read:1", "read:3", "turn", "avail readall"]))
         fin = "readall" if rng.random() < 0.85 else "turn"
+        # the client leaves (or half-closes) before, at or after the end of the declared body: no end-of-body
+        # notification for a body that did not arrive in full
+        if (short and rng.random() < 0.7) or rng.random() < 0.06:
+            evs.append(pick(rng, ["peerclose", "peerclose turn", "peerclose avail readall"]))
         yield ("sock", " ".join(x for x in [reader(rng), "new"] + evs + [fin] if x))
 
 
@@ -810,6 +826,14 @@ def gen_C08(rng, count, tier):
     yield ("tls", "plain halfclose root:%s" % hx(FSROOT.encode()))
     files = [("in.txt", 40), ("sub/deep.txt", 31), ("big.bin", 70000), ("empty.txt", 0), ("edge.bin", 65536), ("a%26b%3Cc%3E.txt", 12)]
     for i in range(count):
+        if rng.random() < 0.04:
+            # the same handler object served the same path before, when the file had another size (and the same
+            # modification time): sizes, ranges and lengths are those of the file as it is now (50 bytes)
+            own = _os.path.join(_os.path.dirname(FSBASE), "rw", "%d-%s-%d-%d" % (_os.getpid(), tier, i, rng.randrange(10**6)))
+            hdr = pick(rng, ["", "\r\nRange: bytes=10-45", "\r\nRange: bytes=-5", "\r\nRange: bytes=49-", "\r\nRange: bytes=0-49", "\r\nRange: bytes=45-60"])
+            req = ("GET /f.bin HTTP/1.1%s\r\n\r\n" % hdr).encode()
+            yield ("fs", "root:%s mkroot warmrw:%d %s" % (hx(own.encode()), pick(rng, [0, 7, 30, 49, 51, 80, 70000]), fs_events(req)))
+            continue
         name, size = pick(rng, files) if rng.random() < 0.9 else (pick(rng, ["", "sub", "sub/"]), 0)
         r = rng.random()
         hdr = None
@@ -1046,10 +1070,16 @@ def gen_C12(rng, count, tier):
             pick(rng, [[stream], [stream[:h + 4], stream[h + 4:]], [stream[:h + 4 + 100], stream[h + 4 + 100:]]])
         evs = ["new"]
         # turns between segments decide whether body bytes arrive before or after `connected`
-        for s in segs:
+        # the upstream server may begin to answer (interim response, early error, streaming endpoint) before the
+        # client has sent the whole body: what the client sends afterwards is still the request
+        early = rng.randrange(len(segs)) if len(segs) > 1 and rng.random() < 0.3 else None
+        for j, s in enumerate(segs):
             evs.append("feed:" + hx(s))
-            if rng.random() < 0.4:
+            if rng.random() < 0.4 or early == j:
                 evs.append("turn")
+            if early == j:
+                uh = pick(rng, [b"HTTP/1.1 100 Continue\r\n\r\n", b"HTTP/1.1 200 OK\r\nX-Up: v\r\n\r\npartial", b"HTTP/1.0 500 Oops\r\n\r\n", b"HTTP/1.1 200 OK\r\n"])
+                evs += ["up:" + hx(uh), "turn"]
         evs += ["turn", "turn"]
         yield ("proxy", " ".join(evs))
 
@@ -1136,7 +1166,8 @@ def gen_C10(rng, count, tier):
         # ending: client first / server first / server destroyed, at a random point
         tail = []
         for _ in range(rng.randrange(0, 6)):
-            tail.append(pick(rng, ["turn", "turn", "ackall", "ack:100", "ack:70000", "peerclose", "killserver" if rng.random() < 0.3 else "turn"]))
+            tail.append(pick(rng, ["turn", "turn", "ackall", "ack:100", "ack:70000", "peerclose", "killserver" if rng.random() < 0.3 else "turn",
+                                   "killhandler" if rng.random() < 0.5 else "turn"]))
         pos = rng.randrange(1, len(evs) + 1)
         if rng.random() < 0.3:
             mid = pick(rng, ["peerclose", "killserver", "turn"])
